@@ -26,6 +26,9 @@ from multidict import CIMultiDict
 
 EPOCH_ISO = '2030-01-01T00:00:00Z'
 
+# One global sequence for everything recorded (requests, server versions, handler calls): same-instant order.
+GSEQ = itertools.count(1)
+
 
 # --------------------------------------------------------------------------------------
 # Independent RFC 7386 / RFC 6902 implementations.
@@ -258,14 +261,15 @@ BASE_RESOURCES = [NAMESPACES, EVENTS, CRDS]
 
 class Request:
     __slots__ = ('idx', 'client', 'n', 't', 'method', 'path', 'query', 'payload', 'ctype', 'kind',
-                 'plural', 'ns', 'name', 'sub', 'status', 'result_rv', 'landed_uid', 'fault', 't_done', 'watch')
+                 'plural', 'ns', 'name', 'sub', 'status', 'result_rv', 'landed_uid', 'fault', 't_done', 'watch',
+                 'g', 'g_done', 'prev_rv', 'lost')
 
     def __init__(self, **kw: Any) -> None:
         for k in self.__slots__:
             setattr(self, k, kw.get(k))
 
     def brief(self) -> dict[str, Any]:
-        return {k: getattr(self, k) for k in ('idx', 'client', 'n', 't', 'method', 'path', 'ctype', 'status',
+        return {k: getattr(self, k) for k in ('g', 'idx', 'client', 'n', 't', 'method', 'path', 'ctype', 'status',
                                               'result_rv', 'landed_uid', 'fault', 'kind')
                 if getattr(self, k) is not None} | ({'payload': self.payload} if self.payload is not None else {})
 
@@ -452,7 +456,7 @@ class FakeKube:
     def _record(self, typ: str, body: dict[str, Any], plural: str) -> None:
         uid = body['metadata'].get('uid')
         self.history.setdefault(uid, []).append(
-            {'t': self.now(), 'rv': self.rv, 'writer': self.writer, 'type': typ, 'plural': plural,
+            {'t': self.now(), 'g': next(GSEQ), 'rv': self.rv, 'writer': self.writer, 'type': typ, 'plural': plural,
              'body': copy.deepcopy(body)})
 
     def _emit(self, plural: str, typ: str, body: dict[str, Any]) -> None:
@@ -642,7 +646,7 @@ class FakeKube:
         client.n += 1
         req = Request(idx=len(self.requests), client=client.name, n=client.n, t=self.now(), method=method,
                       path=u.path + ('?' + u.query if u.query else ''), query=q, payload=copy.deepcopy(payload),
-                      ctype=headers.get('Content-Type'), watch=(q.get('watch') == 'true'))
+                      ctype=headers.get('Content-Type'), watch=(q.get('watch') == 'true'), g=next(GSEQ))
         self._classify(req, u.path)
         self.requests.append(req)
         if client.dead:
@@ -693,6 +697,8 @@ class FakeKube:
             self.writer = prev
         req.status = resp.status
         req.t_done = self.now()
+        req.g_done = next(GSEQ)
+        req.lost = bool(lost or post_kill)
         if post_kill:
             if resp._q is not None:
                 resp.close()
@@ -835,6 +841,7 @@ class FakeKube:
                     body['status'] = copy.deepcopy(cur['status'])
                 else:
                     body.pop('status', None)
+            req.prev_rv = cur['metadata'].get('resourceVersion')
             out = self.write(pl, ns, name, body)
             req.landed_uid = cur['metadata'].get('uid')
             req.result_rv = out['metadata'].get('resourceVersion')
